@@ -145,13 +145,14 @@ def run_one(inp, path):
   case = {"inp": {"src": inp["src"], "segs": inp.get("segs", []), "rows": inp.get("rows", []),
                   "delim": inp["delim"], "quote": inp["quote"], "headers": inp["headers"]},
           "grid": describe_grid(grid, delim, quote),
-          "out": {"nt": 0, "names": [], "lens": [], "cols": []}, "exc": ""}
+          "out": {"nt": 0, "names": [], "lens": [], "cols": [], "skip": 0}, "exc": ""}
   try:
-    _options, tables = import_csv.parse_file(path, {
+    options, tables = import_csv.parse_file(path, {
       "delimiter": delim, "quotechar": quote,
       "include_col_names_as_headers": bool(inp["headers"])})
     out = case["out"]
     out["nt"] = len(tables)
+    out["skip"] = 1 if options.get("skipinitialspace") else 0   # the dialect the importer reports
     if tables:
       t = tables[0]
       out["names"] = [token(m["id"], delim, quote) if m["id"] != "" else ["e", 0, 0]
